@@ -1,4 +1,4 @@
 SPECIFICATION Spec
 CONSTANTS
   Grid = "thorough"
-INVARIANTS TypeOK Unique OrderIndependent Resolves Correct Export
+INVARIANTS TypeOK Unique OrderIndependent Resolves Correct KeyParses Export
